@@ -40,7 +40,7 @@ def _held(toks, i):
 def _sel():
     return seq.Sel(calls={"ABTI_mutex_lock", "ABTI_mutex_unlock", "ABTI_cond_wait", "ABTI_cond_broadcast"},
                    fields={"reader_count", "write_flag"},
-                   conds=lambda t: "write_flag" in t or "reader_count" in t or t == "abt_errno == 0", locks=False)
+                   conds=lambda t: True, locks=False)
 
 
 def rule_R1_R2(P, rep):
@@ -75,6 +75,14 @@ def rule_R1_R2(P, rep):
                     why2.append("cond wait without the mutex")
             stores = [t for t in toks if t[0] == "st"]
             conds = [t for t in toks if t[0] == "if" and t[1] in ("p_rwlock->write_flag", "p_rwlock->reader_count")]
+            # every condition evaluated while the mutex is held must be one of the documented wait conditions
+            allowed = {"p_rwlock->write_flag", "abt_errno == 0", "abt_errno != 0"} | ({"p_rwlock->reader_count"} if writer else set())
+            extra = sorted(set(t[1] for i, t in enumerate(toks) if t[0] == "if" and _held(toks, i) and t[1] not in allowed
+                               and not t[1].startswith("__builtin") and t[1] not in ("0", "1")))
+            if extra:
+                why2.append("%s also waits on %s (a %s must wait %s)" % (
+                    "writer" if writer else "reader", extra, "writer" if writer else "reader",
+                    "only for write_flag or reader_count" if writer else "only while a writer holds the lock"))
             if any(t[1] == "p_rwlock->reader_count" for t in conds) and not writer:
                 why2.append("a reader waits for other readers")
             if writer and not any(t[1] == "p_rwlock->reader_count" for t in conds) and \
